@@ -362,6 +362,9 @@ PROPS['C07'] = dict(
           'reports an error and changes nothing on either', '1..2 updates over 3 (ns,key) pairs x {study, trial 1, 2, missing}'),
         O('C07.update_metadata_other_states', 'harness.c07_equiv', 'update_metadata_other_states', 120, 600,
           'UpdateMetadata on a missing / inactive / completed study', '1 update'),
+        O('C07.many_trials', 'harness.c07_equiv', 'many_trials', 90, 300,
+          'studies with 8..13 trials: ListTrials order and SuggestTrials (which REQUESTED trial is handed out) agree',
+          '8..13 trials alternating REQUESTED/ACTIVE'),
         O('C07.delete_and_recreate', 'harness.c07_equiv', 'delete_and_recreate', 90, 600,
           'delete-study followed by re-creation of the same name: empty study, operation numbering restarts, same on both',
           '0..2 finished suggestion operations before the delete'),
